@@ -39,7 +39,9 @@ namespace opensmt {
     void static inline normalize(char *&rat, const char *flo, bool is_neg) {
         mpq_t num;
         mpq_init(num);
-        int val = mpq_set_str(num, flo, 0);
+        // Base 10, not 0: with base 0 GMP honours C-style prefixes, so "010/3" was read as 8/3 (octal)
+        // and "09/3" failed to parse and silently became 0.
+        int val = mpq_set_str(num, flo, 10);
         (void) val;
         assert(val != -1);
         mpq_canonicalize(num);
